@@ -30,14 +30,27 @@ def rq(rng, lo, hi, den=None):
 
 def gen_case(rng, n=None, kind=None):
     n = n if n is not None else rng.choice([2, 2, 3, 3, 4, 5, 6, 8, 10, 13, 20, 30, 40])
-    kind = kind or rng.choice(['random', 'random', 'random', 'uniform', 'steady'])
+    kind = kind or rng.choice(['random', 'random', 'random', 'uniform', 'steady', 'uniform-inner',
+                               'shared-material'])
     d = [rq(rng, 0.005, 1.0, 1000) or F(1, 100) for _ in range(n)]
     k = [rq(rng, 0.03, 3.0, 100) or F(1) for _ in range(n)]
     c = [rq(rng, 1e4, 3e6, 1) or F(10 ** 6) for _ in range(n)]
     dt = F(rng.choice([1, 30, 60, 300, 600, 900, 3600]))
     bc = rng.choice(['flux', 'deep'])
     flx1 = rq(rng, -500, 900, 10)
-    if kind == 'uniform':
+    if kind == 'shared-material':
+        # one Material OBJECT in every layer (equal properties), layers of different thickness
+        k = [k[0]] * n
+        c = [c[0]] * n
+        t = [rq(rng, 250, 330, 10) for _ in range(n)]
+        v2 = rq(rng, -300, 300, 10) if bc == 'flux' else rq(rng, 270, 300, 10)
+    elif kind == 'uniform-inner':
+        # isothermal element, no flux at the outer face, but an ACTIVE inner boundary
+        T = rq(rng, 250, 320, 10)
+        t = [T] * n
+        flx1 = F(0)
+        v2 = rq(rng, 5, 300, 10) * rng.choice([1, -1]) if bc == 'flux' else T + rq(rng, 1, 15, 10) * rng.choice([1, -1])
+    elif kind == 'uniform':
         T = rq(rng, 250, 320, 10)
         t = [T] * n
         flx1 = F(0)
@@ -66,7 +79,11 @@ def impl_conduction(pkg, cs):
     """Run the REAL Element.Conduction over exact rationals."""
     Element = pkg.element.Element
     Material = pkg.material.Material
-    mats = [Material(k, c, 'm') for k, c in zip(cs['k'], cs['c'])]
+    if cs.get('kind') == 'shared-material':
+        one = Material(cs['k'][0], cs['c'][0], 'm')
+        mats = [one] * len(cs['k'])
+    else:
+        mats = [Material(k, c, 'm') for k, c in zip(cs['k'], cs['c'])]
     e = Element(F(1, 10), F(9, 10), list(cs['d']), mats, F(0), F(293), 1, 'e')
     e.layerTemp = list(cs['t'])
     bc = 1 if cs['bc'] == 'flux' else 2
